@@ -235,6 +235,46 @@ def c01_b(ctx: Ctx):
                             out.append(ctx.viol(R, fi, n, f"{stmt_key(t)} is assigned {stmt_key(n.value, 60)}: an id that is not the canonical hash"))
                         else:
                             out.append(ctx.inc(R, fi, n, f"cannot classify the value assigned to {stmt_key(t)}: {stmt_key(n.value, 60)}"))
+    # a handle that is given both a state point and an id: the id is the key under which that state point was looked up (cache entry) or calc_id of it -
+    # never an id served from a memo whose keys compare with == (1 == 1.0 == True)
+    JINIT = "signac.job:Job.__init__"
+    for fi in ctx.prog.funcs.values():
+        if fi.module.name not in ("signac.job", "signac.project", "signac.sync", "signac.import_export"):
+            continue
+        for c in body_nodes(fi):
+            if not (isinstance(c, ast.Call) and JINIT in common.targets_of(ctx, fi, c)):
+                continue
+            spv, idv = kwarg(c, "statepoint"), kwarg(c, "id_")
+            if spv is None or idv is None:
+                continue
+            k = f"{fi.qual}|handle-id|{canon(idv)[:30]}"
+            if isinstance(idv, ast.Constant) and idv.value is None:
+                continue
+            if isinstance(spv, ast.Subscript) and canon(spv.slice) == canon(idv):
+                out.append(ctx.ok(R, fi, c, "the handle's id is the key under which its state point was found", construct=k))
+                continue
+            tg, ext = (ctx.calls.resolve_call(fi, idv) if isinstance(idv, ast.Call) else ([], None))
+            if any(t.qual == CALC for t in tg):
+                out.append(ctx.ok(R, fi, c, "the handle's id is calc_id(...) of the state point", construct=k))
+                continue
+            memo = None
+            for t in tg:
+                for r in [x for x in body_nodes(t) if isinstance(x, ast.Return) and x.value is not None]:
+                    rv = common.inline_at(ctx, t, r.value, r)
+                    srcs = [rv] + ([d for d in common.reaching_defs(ctx, t, r.value.id, r) if isinstance(d, ast.AST)] if isinstance(r.value, ast.Name) else [])
+                    for sv in srcs:
+                        for x in ast.walk(sv):
+                            if (isinstance(x, ast.Subscript) and isinstance(x.ctx, ast.Load) and not isinstance(x.slice, ast.Constant)) or \
+                                    (isinstance(x, ast.Call) and isinstance(x.func, ast.Attribute) and x.func.attr in ("get", "setdefault", "pop")):
+                                memo = (t, x)
+            if memo:
+                t, x = memo
+                out.append(ctx.viol(R, fi, c, f"the handle's id comes from {t.name}(), which serves it from a look-up table ({canon(x)[:50]}): table keys compare with ==, so state points "
+                                    "that are equal in Python but different as JSON (1, 1.0, True) get the id of whichever spelling was opened first", construct=k))
+            elif isinstance(idv, ast.Name) and idv.id in fi.params:
+                out.append(ctx.ok(R, fi, c, "the handle's id is the id given by the caller", construct=k))
+            else:
+                out.append(ctx.inc(R, fi, c, f"origin of the id {canon(idv)[:40]} given together with a state point not determined", construct=k))
     return out
 
 
